@@ -99,8 +99,23 @@ def runCase (s : St) : String :=
     let mono := if traceAdmissible [] (ch.main ++ ch.post) then "ok"
       else "bad:" ++ ",".intercalate ((ch.main ++ ch.post).map fun (a, b) => s!"{a.bytes}-{b.bytes}")
     let ms := if matchSound li o n ch.matched then "ok" else "bad"
+    -- hypotheses of `changed_covers_partial` on this case (model spans, the judge's stacks)
+    let nS := max o.root.totalBytes n.root.totalBytes
+    let soA := scopeStacks li o.root nS
+    let snA := scopeStacks li n.root nS
+    let lo0 := match ch.spans with
+      | (sp, _, _) :: _ => sp.bytes
+      | [] => 0
+    let hGrow := traceGrow [] (ch.main ++ ch.post)
+    let hTile := spansTile lo0 ch.spans
+    let hSound := ch.spans.all fun (a, b, l) => l == 0 || Id.run do
+      for p in [a.bytes:min b.bytes nS] do
+        if soA.getD p [] != snA.getD p [] then return false
+      return true
+    let cov := if hGrow && hTile && hSound then "ok"
+      else "na:" ++ (if hGrow then "" else "grow") ++ (if hTile then "" else "tile") ++ (if hSound then "" else "sound")
     let rchg := if decide (o.ranges = n.ranges) then 0 else 1
-    s!"{s.id} corr={corr} corrF={if corrF == "ok" then "ok" else "DIFF"} corrA={if corrA == "ok" then "ok" else "DIFF"} corrmsg={corrF} judge={j} cause={cause} mono={mono} msound={ms} nr={s.reported.length} diffbytes={v.diffBytes} uncov={v.uncovered} uncovtok={v.uncoveredInToken} uncovlist={v.uncoveredBytes} same={v.coveredSame} rchg={rchg} calls={ch.main.length + ch.post.length} matched={ch.matched.length}{fixmsg}"
+    s!"{s.id} corr={corr} corrF={if corrF == "ok" then "ok" else "DIFF"} corrA={if corrA == "ok" then "ok" else "DIFF"} corrmsg={corrF} judge={j} cause={cause} mono={mono} msound={ms} cov={cov} nr={s.reported.length} diffbytes={v.diffBytes} uncov={v.uncovered} uncovtok={v.uncoveredInToken} uncovlist={v.uncoveredBytes} same={v.coveredSame} rchg={rchg} calls={ch.main.length + ch.post.length} matched={ch.matched.length}{fixmsg}"
   | _, _, _ => s!"{s.id} corr=BADINPUT judge=BADINPUT"
 
 def step (s : St) (line : String) : IO St := do
